@@ -2,9 +2,9 @@
 C15 driver: decodes a program (s-expression of the core AST), runs the
 resolver and the reference interpreter, prints `<status>|<outputs>`.
 
-op: `prog <mode> <sexp> <hex source>`; mode `impl` = `Cfg.staleElem := true`
-(element lvalues as pkg/eval treats them, used for the correspondence), mode
-`ref` = the reference reading (used by the oracle).
+op: `prog <mode> <sexp> <hex source>`; the mode field is `ref` (the reference);
+`old-element-lvalues` runs `Cfg.staleElem := true` (pkg/eval before commit
+798ebe2; not used by the check).
 -/
 import ElvModel.Go.Basic
 import ElvModel.Go.Driver
@@ -130,7 +130,7 @@ def runLine (mode sexp : String) : String :=
   | none => "bad-op"
   | some c =>
     if !accepts c then "compile-error|"
-    else (runProgram { staleElem := mode == "impl" } fuel c).text
+    else (runProgram { staleElem := mode == "old-element-lvalues" } fuel c).text
 
 def stepLine : List String → String
   | ["prog", mode, sexp, _src] => runLine mode sexp
